@@ -191,6 +191,20 @@ def engine_sim(c, name, menu, lines="Lines4", maxlines=10, num=2000, modes=("bat
                                               "behaviours_replayed": rep.get("cases", 0), "tlc_s": round(r.wall, 1), "replay_s": round(time.time() - t_r, 1)})
 
 
+def engine_scale(c):
+    """thorough tier: one input of 300 lines over 271 keys (FixedInputs <- MidInputs) under ScaleMenu -- LIMIT with and without DISTINCT / HAVING over more groups than
+    fit any small shortcut, COUNT(DISTINCT) over hundreds of values, PERCENTILE ranks, DISTINCT over hundreds of rows; TLC evaluates Engine.tla line by line
+    (BatchRefinesSem against Sem.tla at the end) and the behaviours are replayed on FileExecutor"""
+    dev = vlib.open_devs(ENGINE_DEVS)
+    k = engine_consts(dev, "ScaleMenu", "Lines3", 0, 1, "JoinSets", ("batch",), "NoIntr", ("plain",))
+    k["FixedInputs"] = "<-MidInputs"
+    r = tlc("MC_Engine", cfg_text(constants=k, invariants=(["BatchRefinesSem"] if not dev else []) + ["Emit"]), "engine-scale-300", workers=W, timeout=2400)
+    expect_holds(r, "Engine scale-300"); c.add_tlc(r)
+    rep = vh_replay("engine", r.replay_path, "engine-scale-300", env_extra={"TZ": "UTC"})
+    c.add_report(rep, ENGINE_WHAT)
+    c.extra.setdefault("configs", []).append({"name": "scale-300", "menu": "ScaleMenu", "lines": 300, "behaviours_replayed": rep.get("cases", 0), "states": r.distinct, "tlc_s": round(r.wall, 1)})
+
+
 def engine_union(c, t, joins=True):
     """random inputs over the union of all statement menus (every engine-based check runs it: shapes kept for one property are exercised under the others too)"""
     # what reaches the engine is the file's line: empty lines, CRLF, a last line without line break, a line that is not UTF-8, one- and two-byte files (Reader.tla)
@@ -263,6 +277,8 @@ def check_C04(tier):
     engine_sim(c, "agg", "AggMenu", lines="LinesRich", maxlines=10, num=2500 if t else 200, modes=("batch",))
     # COUNT(DISTINCT) over more than 16 distinct values with recurrences (a group's memory of values seen, beyond any small fixed size)
     engine_sim(c, "count-distinct-wide", "DistinctCountMenu", lines="LinesDistinctWide", maxlines=48, num=1000 if t else 60, modes=("batch",), invs=["TypeOK", "BatchRefinesSem"], minlines=40)
+    if t:
+        engine_scale(c)
     engine_union(c, t)
     c.rule, c.assumptions, c.exhaustive = ENGINE_RULE, ENGINE_ASSUME, True
     return c.finish()
@@ -326,6 +342,8 @@ def check_C07(tier):
     laws_trace(c, 2 if t else 1, 300 if t else 100)
     engine_sim(c, "limit", "LimitMenu", lines="Lines4", maxlines=10, num=2000 if t else 150, modes=("batch",))
     engine_sim(c, "limit-join", "LimitJoinMenu", lines="LinesJ", maxlines=8, num=1000 if t else 80, modes=("batch",))
+    if t:
+        engine_scale(c)
     engine_union(c, t)
     c.rule, c.assumptions, c.exhaustive = ENGINE_RULE, ENGINE_ASSUME, True
     return c.finish()
@@ -342,6 +360,8 @@ def check_C08(tier):
     engine_sim(c, "distinct", "DistinctMenu", lines="LinesRich", maxlines=12, num=2000 if t else 150)
     # more than 16 / 32 distinct rows, each recurring later
     engine_sim(c, "distinct-wide", "DistinctMenu", lines="LinesWide", maxlines=64, num=400 if t else 40, minlines=40)
+    if t:
+        engine_scale(c)
     engine_union(c, t)
     c.rule, c.assumptions, c.exhaustive = ENGINE_RULE, ENGINE_ASSUME, True
     return c.finish()
@@ -769,6 +789,8 @@ def check_C15(tier):
     engine_sim(c, "count-distinct-wide", "DistinctCountMenu", lines="LinesDistinctWide", maxlines=48, num=1000 if t else 70, modes=("batch",), invs=["TypeOK", "BatchRefinesSem"], minlines=40)
     laws_trace(c, 3 if t else 1, 400 if t else 150)
     engine_sim(c, "order", "OrderMenu", lines="LinesRich", maxlines=8, num=1500 if t else 120, modes=("batch",), invs=["TypeOK", "BatchRefinesSem"])
+    if t:
+        engine_scale(c)
     engine_union(c, t, joins=False)
     c.rule = ENGINE_RULE + (" PermLaw quantifies over all permutations of each enumerated input, CombineLaw over all cut points; the real code is run on every ordering (TLC enumerates all sequences) and, on the "
                             "repository's corpora, on seeded shuffles and cuts whose outputs are related by Trace_Laws.tla.")
